@@ -11,7 +11,7 @@ CLAIMED = {
              note=TRUST+"bounds: paths <= 4 (thorough 6) nibbles over a 2-3 symbol alphabet, k<=2 ops after a seed (3 from empty), values 1-2 bytes, size limit constant shrunk to 8 by overlay; SHA3 modelled as injective; RocksDB replaced by a pure-Go KV model; outside these bounds nothing is claimed", ref="DESIGN.md §7 C01"),
  "C02": dict(text="same exploration as C01, with the root compared after every operation against an independent re-implementation of the canonical trie shape and the published node-hash format (harness/c02), under the injective-hash abstraction (root equality = byte-wise equality of all hashed encodings, decided by the solver for all value bytes and versions); plus a two-history injectivity check",
              note=TRUST+"bounds as C01 (k<=2 after seeds, k=3 from empty); SHA3 itself assumed injective; the oracle is part of the trusted base and was cross-checked against the real trie on sorted insertion", ref="DESIGN.md §7 C02"),
- "C14": dict(text="codec: one node of every kind built from symbolic fields (all value bytes, raw key bytes, origin, version are solver variables), decode(encode(n)) must have the same encoding and hash for all field values; stores: after seed+k-operation histories every entry of every store kind is keyed by the hash of its own content, round-trips, and a re-opened trie reads the reference content",
+ "C14": dict(text="codec: one node of every kind built from symbolic fields (all value bytes, raw key bytes, origin, version are solver variables), decode(encode(n)) must have the same encoding and hash for all field values; stores: after seed+k-operation histories every entry of every store kind is keyed by the hash of its own content, round-trips, and a re-opened trie reads the reference content; the pending change set is also saved to a second store that is audited and re-opened at the saved root; a fresh trie over a layered store on top of a saved base state leaves the base consistent",
              note=TRUST+"bounds: fields <= 3-4 bytes/nibbles, keys 32 bytes, histories as C01 quick; RocksDB model", ref="DESIGN.md §7 C14"),
  "C15": dict(text="every byte string up to a length bound is fed to the state-trie decoder with all bytes symbolic (the solver covers every byte value, the explorer every separator position/length), plus structured near-valid families; for the weighted trie, every value of the CBOR target types within size bounds is fed to DeserializeNode / Deserialize / VerifyBlockProof; the assertion is: returns or errors, never panics, accepted input re-encodes",
              note=TRUST+"bounds: CreateNode inputs <= 25 bytes (thorough 29) for all tags, 33-36 bytes for branch tags, structured families beyond; wmpt: CBOR library itself is trusted (blob model) - arbitrary bytes that the CBOR decoder rejects are one trivial path; termination = instruction budget", ref="DESIGN.md §7 C15"),
